@@ -54,6 +54,19 @@ Section C06.
     met_from_cells A [] = None /\ (forall m : cellmat, met_from_cells A ([] :: m) = None).
   Proof. exact (conj (met_from_cells_empty A) (met_from_cells_nocols A)). Qed.
 
+  (* from_tensor_list on its real input: one 2-D tensor per column.  The column tensors of a
+     cell matrix give the canonical container; an empty list and tensors with different
+     numbers of rows are rejected. *)
+  Theorem met_from_tensor_list_cells : forall ws (m : cellmat), rect_w ws m -> ws <> [] ->
+    met_from_tensor_list A (cols_of ws m) = Some (met_of_cells ws m).
+  Proof. exact (met_from_tensor_list_canon A). Qed.
+
+  Theorem met_from_tensor_list_rejects :
+    met_from_tensor_list A [] = None
+    /\ (forall v0 rest v, In v rest -> length (t2rows v) <> length (t2rows v0) ->
+        met_from_tensor_list A (v0 :: rest) = None).
+  Proof. exact (conj (met_from_tensor_list_empty A) (met_from_tensor_list_rows_mismatch A)). Qed.
+
   (* ------------------------------------------------------------------ *)
   (* 2. concatenation yields exactly the cells of the parts in order *)
 
@@ -121,6 +134,20 @@ Section C06.
     intros x0 x rest Hin. split; intros Hne.
     - exact (met_cat0_mismatch A x0 rest x Hin Hne).
     - exact (met_cat1_mismatch A x0 rest x Hin Hne).
+  Qed.
+
+  (* row cat of MultiEmbeddingTensors with equal num_cols but different column widths: no
+     container can hold the rows of both, so it is rejected (any part whose offset differs
+     from the first; in particular canonical containers of different width vectors, even of
+     equal total width) *)
+  Theorem met_cat_rows_rejects_width_mismatch :
+    (forall (x0 x : met A) rest, In x rest -> eoffs x <> eoffs x0 -> met_cat A (x0 :: rest) 0%Z = None)
+    /\ (forall ws ws' (m m' : cellmat) before after, ws' <> ws ->
+        met_cat A (met_of_cells ws m :: before ++ met_of_cells ws' m' :: after) 0%Z = None).
+  Proof.
+    split.
+    - intros x0 x rest Hin Hne. exact (met_cat0_offset_mismatch A x0 rest x Hin Hne).
+    - intros ws ws' m m' before after Hne. exact (met_cat0_width_mismatch A ws ws' m m' before after Hne).
   Qed.
 
   (* ------------------------------------------------------------------ *)
@@ -250,6 +277,9 @@ Print Assumptions mnt_from_mat_rejects.
 Print Assumptions met_from_cells_cells.
 Print Assumptions met_cells_read_back.
 Print Assumptions met_from_cells_rejects.
+Print Assumptions met_from_tensor_list_cells.
+Print Assumptions met_from_tensor_list_rejects.
+Print Assumptions met_cat_rows_rejects_width_mismatch.
 Print Assumptions mnt_cat_rows.
 Print Assumptions mnt_cat_cols.
 Print Assumptions met_cat_rows.
@@ -311,6 +341,11 @@ Proof. vm_compute. reflexivity. Qed.
 
 Example ex_rect_w : rect_w [2; 0; 1] [[[1; 2]; []; [3]]; [[4; 5]; []; [6]]].
 Proof. repeat constructor. Qed.
+
+(* same number of columns, same total width, permuted widths: rejected *)
+Example ex_width_mismatch :
+  met_cat nat [met_of_cells [1; 2] [[[1]; [2; 3]]]; met_of_cells [2; 1] [[[4; 5]; [6]]]] 0%Z = None.
+Proof. vm_compute. reflexivity. Qed.
 
 Example ex_to_dense :
   mnt_to_dense nat (mnt_of_cells 2 ex_m) 0 =
